@@ -99,13 +99,26 @@ def rule_srv_gates(ctx):
             ctx.check(R, okd, fi.qname, "`cipherSuites` derives from settings and negotiated version",
                       "the list the resumed suite is checked against is not the settings- and "
                       "version-filtered suite list", fi.loc(t.ast))
-    for frag, fld in (("clientHello.server_name != bytearray(session.serverName, 'utf-8')", "server name"),
-                      ("clientHello.srp_username != bytearray(session.srpUsername, 'utf-8')", "SRP user")):
-        ok = any(t.kind == "test" and frag in norm(t.expr) and norm(t.expr).startswith("not session.")
-                 for t in g.nodes)
-        ctx.check(R, ok, fi.qname, "%s compared with the session's value" % fld,
-                  "the %s of the new ClientHello is not compared (for inequality) with the session's" % fld,
-                  fi.loc())
+    # meaning of the SNI / SRP consistency checks (finite-domain walk of the function; the encoded
+    # session value is bound alongside the raw one, inconsistent pairs are skipped)
+    from .common import spec_rows
+    rows = []
+    for ch, sv, fld in (("clientHello.server_name", "session.serverName", "server name"),
+                        ("clientHello.srp_username", "session.srpUsername", "SRP user name")):
+        enc = "bytearray(%s, 'utf-8')" % sv
+        other = "clientHello.srp_username" if "server" in ch else "clientHello.server_name"
+        rows.append(dict(
+            what="resumption refused when the %s differs from the session's" % fld,
+            dom={"session": [True], "session.resumable": [True], "session.cipherSuite": [47], "cipherSuites": [(47,)],
+                 "clientHello.cipher_suites": [(47,)], "ticket_ext": [None], "clientHello.session_id": [b"id"],
+                 "sessionCache": [True], "session.encryptThenMAC": [False], "session.extendedMasterSecret": [False],
+                 "clientHello.getExtension(ExtensionType.extended_master_secret)": [None],
+                 other: [b""], ch: [b"", b"a", b"b"], sv: [None, "", "a"], enc: [b"", b"a"]},
+            when=lambda e, sv=sv, enc=enc: (e[sv] or "").encode() == e[enc],
+            abort=lambda e, ch=ch, sv=sv, enc=enc: bool(e[ch]) and (not e[sv] or e[ch] != e[enc]),
+            msg="the %s of the new ClientHello is not compared (for inequality) with the session's: a session "
+                "established for another name would be resumed" % fld))
+    spec_rows(ctx, R, TLSCONN + "_serverGetClientHello", rows)
     # the resumed connection shares the cached object and echoes its parameters
     sets = [n for n in g.nodes if assigns(n, "self.session") and n.line >= sinks[0].line - 80]
     inside = [n for n in sets if any(n.id in g.reach(g.succ_on(t, "T")) for t in sess_tests)]
